@@ -78,20 +78,54 @@ def confirm(tag):
         sh(f"git -C /repo worktree remove --force {wt}")
         shutil.rmtree(wt, ignore_errors=True)
 def run(tag, checks, tier="quick"):
+    """apply the seeded change, run the checks, undo.  Default: on /repo itself (git apply / git checkout -- .).
+    With SEED_WT=1 the change is applied in a scratch worktree and the checks run with VERIF_REPO pointing at it
+    (lets several seeds run while /repo is in use); evidence goes to a scratch directory either way."""
     patch = f"/verif/seeded/{tag}/patch.diff"
-    rc, out = sh("git -C /repo status --porcelain")
-    assert out.strip() == "", "repo dirty: " + out
-    rc, out = sh(f"git -C /repo apply --whitespace=nowarn {patch}")
-    assert rc == 0, out
+    use_wt = os.environ.get("SEED_WT") == "1"
+    evdir = f"/tmp/seedev_{tag}"
+    shutil.rmtree(evdir, ignore_errors=True)
+    env_prefix = f"VERIF_EVIDENCE_DIR={evdir} "
+    if use_wt:
+        wt = f"/tmp/seedrun_{tag}"
+        sh(f"git -C /repo worktree remove --force {wt}")
+        rc, out = sh(f"git -C /repo worktree add --detach {wt} HEAD")
+        assert rc == 0, out
+        rc, out = sh(f"git apply --whitespace=nowarn {patch}", cwd=wt)
+        assert rc == 0, out
+        env_prefix += f"VERIF_REPO={wt} "
+    else:
+        rc, out = sh("git -C /repo status --porcelain")
+        assert out.strip() == "", "repo dirty: " + out
+        rc, out = sh(f"git -C /repo apply --whitespace=nowarn {patch}")
+        assert rc == 0, out
     results = {}
     try:
         for c in checks:
             t = time.time()
-            rc, out = sh(f"bin/check {c} {tier}", cwd="/verif", timeout=3600)
+            rc, out = sh(f"{env_prefix}bin/check {c} {tier}", cwd="/verif", timeout=7200)
             results[c] = {"rc": rc, "wall": round(time.time() - t, 1), "lines": [l for l in out.splitlines() if l.startswith(("VIOLATION", "KNOWN", "INFRA", "  {"))][:6]}
     finally:
-        sh("git -C /repo checkout -- .")
-        sh("git -C /verif checkout -- evidence")
+        if use_wt:
+            sh(f"git -C /repo worktree remove --force {wt}")
+            shutil.rmtree(wt, ignore_errors=True)
+        else:
+            sh("git -C /repo checkout -- .")
+        shutil.rmtree(evdir, ignore_errors=True)
+    # catch record kept with the seed
+    recp = f"/verif/seeded/{tag}/caught.json"
+    rec = json.load(open(recp)) if os.path.exists(recp) else {}
+    head = sh("git -C /repo rev-parse --short HEAD")[1].strip()
+    for c, r in results.items():
+        viol = [l for l in r["lines"] if l.startswith("VIOLATION")]
+        codes = []
+        for l in r["lines"]:
+            if l.startswith("  {"):
+                try: codes.append(json.loads(l.strip()).get("code"))
+                except Exception: pass
+        rec[f"{c}/{tier}/seed{os.environ.get('VERIF_SEED', '1')}"] = {"caught": r["rc"] == 1 and bool(viol), "rc": r["rc"], "wall_s": r["wall"],
+                                                               "codes": sorted(set(x for x in codes if x))[:4], "repo_head": head}
+    json.dump(rec, open(recp, "w"), indent=1, sort_keys=True)
     return results
 if __name__ == "__main__":
     if sys.argv[1] == "confirm":
